@@ -292,6 +292,14 @@ def as_form(form, seq):
         return list(seq)
     if form == 'tuple':
         return tuple(seq)
+    if form == 'set':          # unordered collections of labels (their iteration order is the interpreter's business)
+        return set(seq)
+    if form == 'frozenset':
+        return frozenset(seq)
+    if form == 'dict':         # a dict iterates over its keys
+        return dict.fromkeys(seq, True)
+    if form == 'keys':
+        return dict.fromkeys(seq).keys()
     return iter(list(seq))
 
 
